@@ -358,6 +358,7 @@ func init() {
 				if r.Pct(70) {
 					ts.Align = randAlign(r, 6)
 				}
+				enrichSpec(r, &ts, mdText)
 				add(ts)
 			}
 			return out
